@@ -39,6 +39,9 @@ def _run(ctx):
     for m, inv in PROBES.items():
         if th or m in ("point", "copy"):
             _must_reject(ctx, "mc_cleanup_probe_" + m, "MC_Cleanup_probe_%s.cfg" % m, inv)
+    if th:
+        # documented observation: the stricter reading "a point uses the copy it was fetched through" does not hold
+        _must_reject(ctx, "mc_cleanup_strict", "MC_Cleanup_strict.cfg", "Strict_FetchedCopyKept")
     # 3. histories
     gen = lib.tlc(ctx, "gen_cleanup", "Gen_Cleanup.tla", "Gen_Cleanup_thorough.cfg" if th else "Gen_Cleanup.cfg",
                   workers=4, timeout=3000, count=False)
